@@ -176,6 +176,6 @@ def run(ctx):
         ctx.floor("C31-c", len(vf), 1, "VotedFor passed to update_voted_for before LeaderDiscovered")
         for (ab, ast) in vf:
             i, tm, cm = (Slice(F, b).operand(agg_field(ast, n)) for n in ("voted_for_id", "voted_for_term", "committed"))
-            ok = req_fields(i) == fi and req_fields(tm) == ft and cm.consts() == ["true"] and not any(x[0] in ("field", "param") for x in cm.sources)
+            ok = req_fields(i) == [(req_adt, "leader_id")] and req_fields(tm) == [(req_adt, "term")] and cm.consts() == ["true"] and not any(x[0] in ("field", "param") for x in cm.sources)
             ctx.check("C31-c", key + "#VotedFor", ok, "VotedFor{id: req.leader_id, term: req.term, committed: true}",
                       "the vote that triggers LeaderDiscovered is not (req.leader_id, req.term, committed=true)", loc(b, ab))
